@@ -1397,7 +1397,7 @@ def c16(p, tier, replay):
                  {"seed": o["seed"], "threads": o["threads"], "events": o["events"][:400]})
     # ---- spec -> impl: behaviours of the model as schedules forced on the real threads (hooks as gates)
     nsched, ndistinct, nsteps = 0, 0, 0
-    plans = [("CacheSched.cfg", 400 if tier == "quick" else 3000)] + ([("CacheSched3.cfg", 2000)] if tier == "thorough" else [])
+    plans = [("CacheSched.cfg", 1000 if tier == "quick" else 6000)] + ([("CacheSched3.cfg", 3000)] if tier == "thorough" else [])
     if replay and json.load(open(replay))["record"].get("sched") is not None:
         plans = []
         sched_recs = [json.load(open(replay))["record"]]
